@@ -126,4 +126,76 @@ var properties = map[string]propSpec{
 		Stub:        []string{"short-writing / failing downstream writer"},
 		Probes:      []string{"probe.cutoff_reached", "probe.line_limit_hit", "probe.preempted", "probe.valve_discarded", "fault.downstream_error", "fault.downstream_short"},
 	},
+	"C01": {
+		Engine: "syncsim", Level: "exploration", QuickSec: 30, ThoroughSec: 900,
+		Rule: "one run = the real Manager and controller in a synctest bubble over two model endpoints; a seeded history of user edits (create, overwrite, delete, mkdir, symlink, chmod) on both sides is interleaved by the seeded scheduler with the gates of every endpoint method (connect, poll, scan, stage, transition, shutdown) and with flushes, so edits land in every phase of a cycle; a fault-free settling phase follows; mode two-way-safe; oracle at every Transition call: each non-directory entry the change destroys equals the entry the saved archive file records at that path; at rest: differing content at one path is covered by a reported conflict; non-trivial = at least one transition applied and two plans evaluated; distinct = distinct canonical journal hashes + final trees",
+		Assumptions: append([]string{"the model endpoint refuses a change whose old entry no longer matches its tree (what C08 requires of the real endpoint); the disk scenario (built separately) covers the real endpoint"}, commonAssumptions...),
+		Real:        []string{"synchronization.Manager", "synchronization controller (run loop, synchronize, halt/resume/reset/flush)", "core.Reconcile / Apply / PropagateExecutability as driven by the controller", "session and archive persistence (encoding.MarshalAndSaveProtobuf, WriteFileAtomic)", "state.Tracker / TrackingLock", "logging"},
+		Stub:        []string{"model endpoints (in-memory trees; transition outcomes chosen by the plan)", "simulated user", "client actors", "fake clock"},
+		Probes:      []string{"probe.transitions_applied", "probe.plans_checked", "probe.conflicts", "probe.reached_rest"},
+	},
+	"C02": {
+		Engine: "syncsim", Level: "exploration", QuickSec: 30, ThoroughSec: 900,
+		Rule: "one run = the real Manager and controller in a synctest bubble over two model endpoints; a seeded history of user edits (create, overwrite, delete, mkdir, symlink, chmod) on both sides is interleaved by the seeded scheduler with the gates of every endpoint method (connect, poll, scan, stage, transition, shutdown) and with flushes, so edits land in every phase of a cycle; a fault-free settling phase follows; modes two-way-resolved, one-way-safe and one-way-replica; oracles: in one-way modes no Stage or non-empty Transition ever reaches alpha; in one-way-safe (beta) and two-way-resolved (alpha) every destroyed non-directory entry equals the archive file at that path; non-trivial and distinct as C01",
+		Assumptions: append([]string{"as C01; the read-only guard of the real local endpoint is covered by the disk scenario"}, commonAssumptions...),
+		Real:        []string{"synchronization.Manager", "synchronization controller (run loop, synchronize, halt/resume/reset/flush)", "core.Reconcile / Apply / PropagateExecutability as driven by the controller", "session and archive persistence (encoding.MarshalAndSaveProtobuf, WriteFileAtomic)", "state.Tracker / TrackingLock", "logging"},
+		Stub:        []string{"model endpoints (in-memory trees; transition outcomes chosen by the plan)", "simulated user", "client actors", "fake clock"},
+		Probes:      []string{"probe.transitions_applied", "probe.plans_checked", "probe.reached_rest"},
+	},
+	"C03": {
+		Engine: "syncsim", Level: "exploration", QuickSec: 30, ThoroughSec: 900,
+		Rule: "one run = the real Manager and controller in a synctest bubble over two model endpoints; a seeded history of user edits (create, overwrite, delete, mkdir, symlink, chmod, untracked and problematic entries at any depth) on both sides is interleaved by the seeded scheduler with the gates of every endpoint method (connect, poll, scan, stage, transition, shutdown) and with flushes, so edits land in every phase of a cycle; a fault-free settling phase follows; all four modes; oracle at every Transition call: no change carries unsynchronizable content in its old entry, and no change is applied at a path where the endpoint holds untracked or problematic content at or below it (a conflict must be reported instead); non-trivial and distinct as C01",
+		Assumptions: append([]string{"phantom directories (Docker-style ignores) are not generated"}, commonAssumptions...),
+		Real:        []string{"synchronization.Manager", "synchronization controller (run loop, synchronize, halt/resume/reset/flush)", "core.Reconcile / Apply / PropagateExecutability as driven by the controller", "session and archive persistence (encoding.MarshalAndSaveProtobuf, WriteFileAtomic)", "state.Tracker / TrackingLock", "logging"},
+		Stub:        []string{"model endpoints (in-memory trees; transition outcomes chosen by the plan)", "simulated user", "client actors", "fake clock"},
+		Probes:      []string{"probe.transitions_applied", "probe.conflicts", "probe.plans_checked"},
+	},
+	"C04": {
+		Engine: "syncsim", Level: "exploration", QuickSec: 30, ThoroughSec: 900,
+		Rule: "one run = the real Manager and controller in a synctest bubble over two model endpoints; a seeded history of user edits (create, overwrite, delete, mkdir, symlink, chmod) on both sides is interleaved by the seeded scheduler with the gates of every endpoint method (connect, poll, scan, stage, transition, shutdown) and with flushes, so edits land in every phase of a cycle; a fault-free settling phase follows; all modes; after the history a flush brings the session to rest, then a quiet flush must reach no endpoint with a Stage or Transition and must not rewrite the archive file; in two-way modes both trees must be equal outside reported conflicts and the archive must equal the common content; asserted only for ideal runs (every planned change applied exactly); non-trivial and distinct as C01",
+		Assumptions: append([]string{"ideal transition results are provided by the model endpoint"}, commonAssumptions...),
+		Real:        []string{"synchronization.Manager", "synchronization controller (run loop, synchronize, halt/resume/reset/flush)", "core.Reconcile / Apply / PropagateExecutability as driven by the controller", "session and archive persistence (encoding.MarshalAndSaveProtobuf, WriteFileAtomic)", "state.Tracker / TrackingLock", "logging"},
+		Stub:        []string{"model endpoints (in-memory trees; transition outcomes chosen by the plan)", "simulated user", "client actors", "fake clock"},
+		Probes:      []string{"probe.reached_rest", "probe.convergence_checked"},
+	},
+	"C05": {
+		Engine: "syncsim", Level: "fault_enumeration", QuickSec: 30, ThoroughSec: 900,
+		Rule: "one run = the real Manager and controller in a synctest bubble over two model endpoints; a seeded history of user edits (create, overwrite, delete, mkdir, symlink, chmod) on both sides is interleaved by the seeded scheduler with the gates of every endpoint method (connect, poll, scan, stage, transition, shutdown) and with flushes, so edits land in every phase of a cycle; a fault-free settling phase follows; every transitioned change may receive an outcome drawn by fault rules from {new, old, nothing, prefix-closed sub-tree of old, prefix-closed sub-tree of new}, a whole-call error, or a scan error with/without retry; oracles: the controller never reports a failed ancestor update, the ancestor handed to the next scans is valid synchronizable content, equals the archive file and records at each transitioned path exactly the reported entry; the archive is loadable at rest and after restarts; non-trivial and distinct as C01",
+		Assumptions: append([]string{"outcome positions are sampled per seeded history (Nth transitioned change of a side), not enumerated exhaustively for one history"}, commonAssumptions...),
+		Real:        []string{"synchronization.Manager", "synchronization controller (run loop, synchronize, halt/resume/reset/flush)", "core.Reconcile / Apply / PropagateExecutability as driven by the controller", "session and archive persistence (encoding.MarshalAndSaveProtobuf, WriteFileAtomic)", "state.Tracker / TrackingLock", "logging"},
+		Stub:        []string{"model endpoints (in-memory trees; transition outcomes chosen by the plan)", "simulated user", "client actors", "fake clock"},
+		Probes:      []string{"probe.recorded_results_checked", "fault.outcome", "probe.outcome_class_1", "probe.outcome_class_2", "probe.outcome_class_3", "probe.outcome_class_4"},
+	},
+	"C06": {
+		Engine: "syncsim", Level: "exploration", QuickSec: 30, ThoroughSec: 900,
+		Rule: "one run = the real Manager and controller in a synctest bubble over two model endpoints; a seeded history of user edits (create, overwrite, delete, mkdir, symlink, chmod, untracked/problematic entries) on both sides is interleaved by the seeded scheduler with the gates of every endpoint method (connect, poll, scan, stage, transition, shutdown) and with flushes, so edits land in every phase of a cycle; a fault-free settling phase follows; whenever both scans of a cycle have returned, the plan for exactly that (ancestor, alpha, beta) triple and mode is computed with core.Reconcile (after the controller's executability propagation) and checked: no two actions (same or opposite endpoint) at related paths, none related to a conflict root, conflicts valid, two-sided, rooted above all their changes and pairwise unrelated; non-trivial and distinct as C01",
+		Assumptions: append([]string{"plans are reached through simulated histories; bounded enumeration of triples would be model checking and is outside this technique"}, commonAssumptions...),
+		Real:        []string{"synchronization.Manager", "synchronization controller (run loop, synchronize, halt/resume/reset/flush)", "core.Reconcile / Apply / PropagateExecutability as driven by the controller", "session and archive persistence (encoding.MarshalAndSaveProtobuf, WriteFileAtomic)", "state.Tracker / TrackingLock", "logging"},
+		Stub:        []string{"model endpoints (in-memory trees; transition outcomes chosen by the plan)", "simulated user", "client actors", "fake clock"},
+		Probes:      []string{"probe.plans_checked", "probe.conflicts"},
+	},
+	"C11": {
+		Engine: "syncsim", Level: "exploration", QuickSec: 30, ThoroughSec: 900,
+		Rule: "one run = the real Manager and controller in a synctest bubble over two model endpoints; a seeded history of user edits (create, overwrite, delete, mkdir, symlink, chmod) on both sides is interleaved by the seeded scheduler with the gates of every endpoint method (connect, poll, scan, stage, transition, shutdown) and with flushes, so edits land in every phase of a cycle; a fault-free settling phase follows; after the session converged, one root event (delete root, replace it by a file, empty it, or - control - empty both) is applied to one side; oracles: when the archive holds content (>= 2 root entries for emptying) the session reaches a Halted status, no Stage/Transition reaches either endpoint afterwards, the other endpoint is unchanged, the status is still halted after the 15 s reconnect interval has passed four times; control events do not halt; non-trivial and distinct as C01",
+		Assumptions: append([]string{"expectations are asserted only when the session had converged (no conflicts) before the root event"}, commonAssumptions...),
+		Real:        []string{"synchronization.Manager", "synchronization controller (run loop, synchronize, halt/resume/reset/flush)", "core.Reconcile / Apply / PropagateExecutability as driven by the controller", "session and archive persistence (encoding.MarshalAndSaveProtobuf, WriteFileAtomic)", "state.Tracker / TrackingLock", "logging"},
+		Stub:        []string{"model endpoints (in-memory trees; transition outcomes chosen by the plan)", "simulated user", "client actors", "fake clock"},
+		Probes:      []string{"probe.halt_expected", "probe.halt_not_expected", "probe.root_event_kind_0", "probe.root_event_kind_1", "probe.root_event_kind_2"},
+	},
+	"C18": {
+		Engine: "syncsim", Level: "exploration", QuickSec: 30, ThoroughSec: 900,
+		Rule: "one run = the real Manager and controller in a synctest bubble over two model endpoints; a seeded history of user edits (create, overwrite, delete, mkdir, symlink, chmod) on both sides is interleaved by the seeded scheduler with the gates of every endpoint method (connect, poll, scan, stage, transition, shutdown) and with flushes, so edits land in every phase of a cycle; a fault-free settling phase follows; one endpoint reports PreservesExecutability=false and never reports executable bits; oracle at every Transition on the preserving endpoint: no file present in both the old and the new entry changes its executable bit; non-trivial and distinct as C01",
+		Assumptions: append([]string{"no non-preserving filesystem can be mounted in the sandbox: the non-preserving side is a model endpoint (declared stub)"}, commonAssumptions...),
+		Real:        []string{"synchronization.Manager", "synchronization controller (run loop, synchronize, halt/resume/reset/flush)", "core.Reconcile / Apply / PropagateExecutability as driven by the controller", "session and archive persistence (encoding.MarshalAndSaveProtobuf, WriteFileAtomic)", "state.Tracker / TrackingLock", "logging"},
+		Stub:        []string{"model endpoints (in-memory trees; transition outcomes chosen by the plan)", "simulated user", "client actors", "fake clock"},
+		Probes:      []string{"probe.transitions_applied", "probe.plans_checked"},
+	},
+	"C29": {
+		Engine: "syncsim", Level: "exploration", QuickSec: 30, ThoroughSec: 900,
+		Rule: "one run = the real Manager and controller in a synctest bubble over two model endpoints; a seeded history of user edits (create, overwrite, delete, mkdir, symlink, chmod) on both sides is interleaved by the seeded scheduler with the gates of every endpoint method (connect, poll, scan, stage, transition, shutdown) and with flushes, so edits land in every phase of a cycle; a fault-free settling phase follows; client actors issue flush (waiting / not), pause, resume, reset, terminate, list and manager restart in seeded order while endpoint methods park at gates, so commands land in every phase; oracles: no endpoint method or connect starts between the return of Pause and the next Resume (also across restart), Pause/Shutdown return with no method in progress, a waiting Flush returning nil saw a scan start on both endpoints after its invocation and no transition in flight, Terminate removes session and archive files and the session is not reloaded, Reset of a paused session leaves an empty archive, every command returns; non-trivial and distinct as C01",
+		Assumptions: append([]string{"lock-holding lifecycle commands are issued one at a time per session (a second caller would block on a sync.Mutex, which synctest cannot treat as durably blocked)"}, commonAssumptions...),
+		Real:        []string{"synchronization.Manager", "synchronization controller (run loop, synchronize, halt/resume/reset/flush)", "core.Reconcile / Apply / PropagateExecutability as driven by the controller", "session and archive persistence (encoding.MarshalAndSaveProtobuf, WriteFileAtomic)", "state.Tracker / TrackingLock", "logging"},
+		Stub:        []string{"model endpoints (in-memory trees; transition outcomes chosen by the plan)", "simulated user", "client actors", "fake clock"},
+		Probes:      []string{"probe.paused", "probe.restarts", "probe.flush_waited_ok", "probe.reset", "probe.terminated"},
+	},
 }
